@@ -18,7 +18,7 @@ ASSUMPTIONS = ["register sets enumerated (sizes 1,7,8,9,32,33,64,70; atomic_writ
                "bus master drives we and re never both in one cycle"]
 BOUNDS = {"quick": "BMC K=8 accesses from reset, 8 register-set configurations + 3 memory windows + 1 two-bank array",
           "thorough": "BMC K=12 accesses from reset, 24 register-set configurations + 6 memory windows + 2 bank arrays"}
-OUTSIDE = "access sequences longer than K; register sets other than the enumerated ones; CSR bus widths 16/64"
+OUTSIDE = "access sequences longer than K; register sets other than the enumerated ones; CSR bus widths 16/64; paged memory windows other than 1.5 / 2.5 pages of 8 words"
 FUNCS = ["litex.soc.interconnect.csr.CSR", "litex.soc.interconnect.csr.CSRStorage.__init__/do_finalize", "litex.soc.interconnect.csr.CSRStatus.__init__/do_finalize",
          "litex.soc.interconnect.csr.CSRField", "litex.soc.interconnect.csr.CSRFieldAggregate", "litex.soc.interconnect.csr.GenericBank",
          "litex.soc.interconnect.csr_bus.CSRBank", "litex.soc.interconnect.csr_bus.Interface"]
